@@ -11,7 +11,7 @@ REPO="${VERIF_REPO:-/repo}"
 export VERIF_REPO="$REPO"
 W=/verif/.work/build.$$
 mkdir -p "$W"
-cleanup() { rm -rf "$W" "/verif/.bin/mc.$$"; }
+cleanup() { rm -rf "$W" "/verif/.bin/mc.$$" "/verif/.bin/mc.$$.sched" "/verif/.bin/mc.$$.race"; }
 trap cleanup EXIT
 cd /verif/mc || exit 2
 cp "$REPO/go.sum" go.sum 2>/dev/null
@@ -38,8 +38,38 @@ if [ ${#OVARGS[@]} -eq 0 ] || ! go build "${MODARGS[@]}" "${OVARGS[@]}" -o "$BIN
     exit 2
   fi
 fi
+# C20: the schedule clause is decided by the controlled scheduler (engine E4) in a second
+# binary built against rewritten copies of the current tree (a call to the scheduler before
+# every statement, "sync" replaced by shims: tools/genyield).  It runs first; its coverage
+# is merged into C20's evidence and its violations are C20 violations.
+src=0
+if [ "$ID" = "C20" ] || [ "$ID" = "C20S" ]; then
+  if [ ! -x /verif/.bin/genyield ]; then (cd /verif/tools/genyield && go build -o /verif/.bin/genyield . 2>/dev/null); fi
+  SOV=()
+  if [ -f "$W/ov/overlay.json" ]; then SOV=("$W/ov/overlay.json"); fi
+  if /verif/.bin/genyield "$REPO" "$W/yov" "${SOV[@]}" >"$W/genyield.log" 2>&1 \
+     && go build "${MODARGS[@]}" -tags "verifoverlay verifsched" -overlay "$W/yov/overlay.json" -o "$BIN.sched" . 2>"$W/sched-build.log"; then
+    export VERIF_SITES="$W/yov/sites.json"
+    if [ "$ID" = "C20S" ]; then
+      "$BIN.sched" C20S "$TIER" "$@"; exit $?
+    fi
+    if [ $# -eq 0 ]; then
+      mkdir -p "$W/schedout"
+      RPO="${VERIF_OUT:-/verif}"
+      VERIF_REPLAY_OUT="$RPO" VERIF_OUT="$W/schedout" "$BIN.sched" C20S "$TIER" | sed 's#^C20S #C20 (schedules) #'
+      src=${PIPESTATUS[0]}
+      export VERIF_SCHED_EVIDENCE="$W/schedout/evidence/C20S.json"
+    fi
+    rm -f "$BIN.sched"
+  else
+    echo "C20 schedule engine unavailable for this tree (rewriter or build failed: $(head -1 "$W/genyield.log" "$W/sched-build.log" 2>/dev/null | tr '\n' ' ')); the history part still runs"
+    [ "$ID" = "C20S" ] && exit 2
+  fi
+fi
 "$BIN" "$ID" "$TIER" "$@"
 rc=$?
+if [ $src -eq 1 ] && [ $rc -eq 0 ]; then rc=1; fi
+if [ $src -ge 2 ] && [ $rc -eq 0 ]; then rc=$src; fi
 # C20 thorough: the supplementary free-running concurrent pass under the race detector
 if [ "$ID" = "C20" ] && [ "$TIER" = "thorough" ] && [ $# -eq 0 ] && [ $rc -le 1 ]; then
   if CGO_ENABLED=1 go build -race "${MODARGS[@]}" "${OVARGS[@]}" -o "$BIN.race" . 2>"$W/race-build.log"; then
